@@ -268,6 +268,7 @@ def run(c, chk):
 
     # ---- R14.6 -----------------------------------------------------------------------------
     walker_template(c, chk, ex)
+    callbacks_travel(c, chk)
     for fname, fld in (('cfg_set_validate_func', 'validcb'), ('cfg_set_validate_func2', 'validcb2')):
         fn = c.need(fname)
         walker = [x for x in fn.calls('cfg_getopt_array')]
@@ -380,3 +381,41 @@ def walker_template(c, chk, ex):
 def fp_cond(p):
     from .. import failpaths as fp
     return fp.cond_text(p, 5)
+
+
+def callbacks_travel(c, chk):
+    """R14.8: a callback set in the schema reaches every context and section instance built from it: the duplicator
+    copies every callback member (it copies whole records, or names each of them)"""
+    from . import c16
+    from .. import report as _report
+    chk.rule('R14.8', 'the option duplicator carries every callback member (parse, validate, pre-set validate, print, release, function) into the copy')
+
+    class OnlyMembers(object):
+        def __init__(self, chk):
+            self._chk = chk
+            self.tier = chk.tier
+            self.rules = {}
+            self.analysed = {}
+            self.extra = {}
+            self.explanation = ''
+            self.assumptions = []
+            self.trusted = []
+            self.hits = 0
+
+        def rule(self, *a):
+            pass
+
+        def ok(self, *a, **kw):
+            pass
+
+        def floor(self, *a, **kw):
+            pass
+
+        def fail(self, rule, key, where, msg, witness=None, site=None):
+            if key.startswith('member-dropped:') and key.split(':', 1)[1] in ('func', 'parsecb', 'validcb', 'validcb2', 'pf', 'freecb'):
+                self.hits += 1
+                self._chk.fail('R14.8', key, where, msg, witness=witness)
+    o = OnlyMembers(chk)
+    c16.run(c, o)
+    if not o.hits:
+        chk.ok('R14.8', 'cfg_dupopt_array', 'records are copied whole (or every callback member is named)', sample=True)
